@@ -218,7 +218,7 @@ theorem old_timers_popped (hist : List Delivery) (s : State) (now : Nat) (pkts :
       (t = (iter s now pkts cmds).1.nextIpCheck ∧ now < t) :=
   (evolves_iter hist s now pkts cmds hw.prov hw.delays).timers_new t ht
 
-/-! ### consequence for C17: an iteration that is on time reports no address that ran out -/
+/-! ### an iteration that is on time finds nothing expired in the cache -/
 
 /-- an iteration at `now` that is not later than the wake-up the daemon asked for finds no
     cached entry that expired before `now` -/
@@ -227,24 +227,11 @@ theorem on_time_nothing_expired (T : Nat) (s : State) (now : Nat) (h : TimersCov
     CacheAll (fun e => now ≤ e.record.expires) s.cache :=
   fun sl p hp e he => hon _ ((h.cache sl p hp e he).1 (hl sl p hp e he))
 
-/-- **hfound on time**: if the iteration at `now` is not later than the requested wake-up
-    (`now ≤` every pending timer), every address of every `AddressesFound` it emits comes from a
-    delivered record whose lifetime does not end before `now` - the reading of C17 with the
-    exact expiry instant left open, as the monitor has it. -/
-theorem hfound_on_time (hist : List Delivery) (cmds0 : List Command) (T : Nat) (s : State) (now : Nat)
-    (pkts : List Packet) (cmds : List Command) (hc : CacheProv hist s.cache) (hcov : TimersCover T s)
-    (hl : CacheAll (fun e => T < e.record.expires) s.cache) (hr : ResolversFrom cmds0 s.resolvers)
-    (hon : ∀ t ∈ s.timers, now ≤ t) (ch : Nat) (host : BList) (addrs : List AddrItem)
-    (hm : Out.event ch (.hfound host addrs) ∈ (iter s now pkts cmds).2) :
-    ∀ a ∈ addrs, ∃ d ∈ hist ++ deliveries s now pkts, d.wire.name = host ∧ (d.wire.ty = 1 ∨ d.wire.ty = 28) ∧
-      (d.wire.rdata = .a a.1 ∨ d.wire.rdata = .aaaa a.1) ∧ d.ifName = a.2.1 ∧ d.ifIdx = a.2.2 ∧
-      now ≤ d.time + 1000 * d.wire.ttl := by
-  have hfl : CacheAll (Floor now now) s.cache :=
-    (on_time_nothing_expired T s now hcov hl hon).mono fun e he => Or.inr he
-  have h := C17.hfound_sound_floor hist cmds0 now s now pkts cmds hc hfl hr ch host addrs hm
-  intro a ha
-  obtain ⟨d, hd, h1, h2, h3, h4, h5, h6⟩ := h.addr a ha
-  exact ⟨d, hd, h1, h2, h3, h4, h5, by omega⟩
+/-! (`hfound_on_time`, which stood here - "an iteration that is on time lists no address whose
+    record ran out before `now`" - was what held of `AddressesFound` while
+    `get_addresses_for_host` did not look at expiry times (D44).  Since the repair
+    `Props.C17.hfound_unexpired` / `hfound_sound` give the stronger conclusion `now <` end of
+    lifetime for EVERY iteration, on time or not, so the statement is gone.) -/
 
 /-! ### non-vacuity -/
 
